@@ -3,6 +3,8 @@ From Coq Require Import List NArith Bool Lia String.
 From SV Require Import lib.Bytes lib.Tmpl gen.GenClaims model.Claims.
 Import ListNotations.
 Open Scope N_scope.
+(* the registration key is abstract in every proof: never unfold it *)
+Arguments gkey : simpl never.
 Local Notation "x ++ y" := (List.app x y) (right associativity, at level 60) : list_scope.
 
 (* ------------------------------------------------------------------------------------------ *)
@@ -126,12 +128,12 @@ Record Inv (gm : str -> str -> bool) (gr : bool) (st : state) : Prop := mkInv {
                           is_prefix t t' = true -> t = t';
   inv_own : forall p cl t, In (p, cl) (claims st) -> In t (tree_labels st) ->
                            is_prefix t p = true -> c_role cl = RStatic /\ c_by cl = CTree t;
-  inv_gm : forall g m, In g (globs st) -> In m (g_ms g) -> gm (g_pat g) m = true;
+  inv_gm : forall g m, In g (globs st) -> In m (g_ms g) -> gm (g_key g) m = true;
   inv_gprod : forall g m cl, In g (globs st) -> In m (g_ms g) -> In (m, cl) (claims st) ->
                              c_role cl = RStatic;
   (* only when register_nglob scans the products (after the fix of D3) *)
   inv_gfull : gr = true -> forall g p cl, In g (globs st) -> In (p, cl) (claims st) ->
-                             gm (g_pat g) p = true -> c_role cl = RStatic
+                             gm (g_key g) p = true -> c_role cl = RStatic
 }.
 
 Lemma role_eqb_eq a b : role_eqb a b = true <-> a = b.
@@ -208,7 +210,7 @@ Lemma set_claim_inv st p r c :
   Inv gm gr st ->
   lookup p (claims st) = None ->
   (forall t, In t (tree_labels st) -> is_prefix t p = true -> r = RStatic /\ c = CTree t) ->
-  (product_role r = true -> forall g, In g (globs st) -> gm (g_pat g) p = false) ->
+  (product_role r = true -> forall g, In g (globs st) -> gm (g_key g) p = false) ->
   Inv gm gr (set_claim st p (mkClaim r c)).
 Proof.
   intros HI Hl Hown Hg. constructor; cbn.
@@ -256,7 +258,7 @@ Qed.
 
 Lemma declare_file_inv c r st p st' :
   Inv gm gr st -> tree_decl_ok st c r p ->
-  (product_role r = true -> forall g, In g (globs st) -> gm (g_pat g) p = false) ->
+  (product_role r = true -> forall g, In g (globs st) -> gm (g_key g) p = false) ->
   declare_file ow c r st p = Ok st' -> Inv gm gr st' /\ same_frame st st'.
 Proof.
   intros HI Hc Hg H. unfold declare_file in H.
@@ -354,7 +356,7 @@ Proof.
 Qed.
 
 Definition glob_free (st : state) (p : str) : Prop :=
-  forall g, In g (globs st) -> gm (g_pat g) p = false.
+  forall g, In g (globs st) -> gm (g_key g) p = false.
 
 Lemma fold_declare_inv c r ps st st' :
   Inv gm gr st ->
@@ -535,20 +537,20 @@ Proof.
   destruct (is_product st x) eqn:E; [discriminate|]. destruct Hin as [<-|Hin]; auto.
 Qed.
 
-Lemma register_glob_inv s pat ms st st' :
-  Inv gm gr st -> register_glob gm gr s pat ms st = Ok st' -> Inv gm gr st'.
+Lemma register_glob_inv s pat subs ms st st' :
+  Inv gm gr st -> register_glob gm gr s pat subs ms st = Ok st' -> Inv gm gr st'.
 Proof.
   intros HI H. unfold register_glob in H.
   destruct (require_step st (CStep s)); cbn [bind] in H; [|discriminate].
-  set (ms' := sort_uniq (filter (gm pat) ms)) in *.
-  set (prodf := fun pc : str * claim => negb (role_eqb (c_role (snd pc)) RStatic) && gm pat (fst pc)) in *.
+  set (ms' := sort_uniq (filter (gm (gkey pat subs)) ms)) in *.
+  set (prodf := fun pc : str * claim => negb (role_eqb (c_role (snd pc)) RStatic) && gm (gkey pat subs) (fst pc)) in *.
   destruct (if gr then min_entry (filter prodf (claims st)) else first_product st ms')
     as [[p cl]|] eqn:Ef; [discriminate|].
   destruct (find_first (is_prefix stepup_prefix) ms'); [discriminate|].
   inversion H; subst.
-  assert (Hms : forall m, In m ms' -> gm pat m = true).
+  assert (Hms : forall m, In m ms' -> gm (gkey pat subs) m = true).
   { intros m Hm. unfold ms' in Hm. apply (proj1 (sort_uniq_in _ _)) in Hm. apply filter_In in Hm. tauto. }
-  assert (Hscan : gr = true -> forall q cl, In (q, cl) (claims st) -> gm pat q = true -> c_role cl = RStatic).
+  assert (Hscan : gr = true -> forall q cl, In (q, cl) (claims st) -> gm (gkey pat subs) q = true -> c_role cl = RStatic).
   { intros Hgr q cl Hin Hm. rewrite Hgr in Ef. apply min_entry_none in Ef.
     pose proof (filter_nil _ _ Ef (q, cl) Hin) as Hf. unfold prodf in Hf. cbn in Hf.
     rewrite Hm, andb_true_r in Hf. apply negb_false_iff in Hf. now apply role_eqb_eq. }
@@ -570,10 +572,10 @@ Proof.
 Qed.
 
 Lemma glob_check_ok gs lbl ps :
-  glob_check gm gs lbl ps = Ok tt -> forall g p, In g gs -> In p ps -> gm (g_pat g) p = false.
+  glob_check gm gs lbl ps = Ok tt -> forall g p, In g gs -> In p ps -> gm (g_key g) p = false.
 Proof.
   induction gs as [|g0 gs IH]; cbn; intros H g p Hg Hp; [tauto|].
-  destruct (find_first (gm (g_pat g0)) ps) eqn:E; [discriminate|].
+  destruct (find_first (gm (g_key g0)) ps) eqn:E; [discriminate|].
   destruct Hg as [<-|Hg]; [eapply find_first_none; eauto|]. now apply IH.
 Qed.
 
@@ -765,7 +767,7 @@ Definition accepted {A} (r : res A) : bool := match r with Ok _ => true | Err _ 
 
 (* D3: a pattern and a planned output that is not (yet) among the recorded matches. *)
 Lemma glob_vs_planned_output_refuted :
-  let r1 := RqGlob w_B w_pat [] in
+  let r1 := RqGlob w_B w_pat [] [] in
   let r2 := RqAmend w_A [] [w_atxt] [] in
   reachable w_gm true false w_boot /\
   accepted (step w_gm true false w_boot r1) = true /\ accepted (step w_gm true false w_boot r2) = true /\
@@ -776,10 +778,10 @@ Qed.
 
 Lemma glob_never_matches_product_refuted :
   exists st g p cl, reachable w_gm true false st /\ In g (globs st) /\ In (p, cl) (claims st) /\
-                    c_role cl = ROutput /\ w_gm (g_pat g) p = true.
+                    c_role cl = ROutput /\ w_gm (g_key g) p = true.
 Proof.
-  exists (run_skip w_gm true false w_boot [RqAmend w_A [] [w_atxt] []; RqGlob w_B w_pat []]).
-  exists (mkGlob w_B w_pat []), w_atxt, (mkClaim ROutput (CStep w_A)).
+  exists (run_skip w_gm true false w_boot [RqAmend w_A [] [w_atxt] []; RqGlob w_B w_pat [] []]).
+  exists (mkGlob w_B w_pat [] []), w_atxt, (mkClaim ROutput (CStep w_A)).
   split; [apply reachable_run_skip; eexists; reflexivity|].
   vm_compute. repeat split; auto.
 Qed.
@@ -1264,20 +1266,20 @@ Qed.
 (* Glob versus product, decision level, when register_nglob scans the products (gr = true):
    pattern first, _raise_if_glob_match rejects the product p iff gm pat p; product first,
    register_nglob rejects the pattern iff gm pat p; same structured message. *)
-Theorem glob_product_either_order (s pat lbl p : str) (ms : list str) (cl : claim) :
+Theorem glob_product_either_order (s pat lbl p : str) (subs : subs_t) (ms : list str) (cl : claim) :
   c_role cl <> RStatic -> c_by cl = CStep lbl ->
-  glob_check gm [mkGlob s pat ms] lbl [p] =
-    (if gm pat p then Err (MGlobProduct pat s p lbl) else Ok tt) /\
-  (match min_entry (filter (fun pc : str * claim => negb (role_eqb (c_role (snd pc)) RStatic) && gm pat (fst pc))
+  glob_check gm [mkGlob s pat subs ms] lbl [p] =
+    (if gm (gkey pat subs) p then Err (MGlobProduct pat s p lbl) else Ok tt) /\
+  (match min_entry (filter (fun pc : str * claim => negb (role_eqb (c_role (snd pc)) RStatic) && gm (gkey pat subs) (fst pc))
                            [(p, cl)]) with
    | Some (q, cl') => Err (MGlobProduct pat s q (creator_label (c_by cl')))
    | None => Ok tt
-   end) = (if gm pat p then Err (MGlobProduct pat s p lbl) else Ok tt).
+   end) = (if gm (gkey pat subs) p then Err (MGlobProduct pat s p lbl) else Ok tt).
 Proof.
   intros Hr Hby. split.
-  - cbn. destruct (gm pat p); reflexivity.
+  - cbn. unfold g_key. cbn [g_pat g_subs]. destruct (gm (gkey pat subs) p); reflexivity.
   - cbn. destruct (role_eqb (c_role cl) RStatic) eqn:E; [apply role_eqb_eq in E; contradiction|].
-    cbn. destruct (gm pat p); [|reflexivity]. cbn. now rewrite Hby.
+    cbn. destruct (gm (gkey pat subs) p); [|reflexivity]. cbn. now rewrite Hby.
 Qed.
 
 End EitherOrder.
@@ -1311,7 +1313,7 @@ Definition state_equiv (a b : state) : Prop :=
 Definition req_creator (r : req) : creator :=
   match r with
   | RqStatic c _ | RqTree c _ | RqDefine c _ _ _ _ => c
-  | RqGlob s _ _ | RqAmend s _ _ _ => CStep s
+  | RqGlob s _ _ _ | RqAmend s _ _ _ => CStep s
   end.
 
 (* ------------------------------------------------------------------------------------------ *)
@@ -2086,38 +2088,38 @@ Lemma glob_check_app gs1 gs2 lbl ps :
   match glob_check gm gs1 lbl ps with Ok _ => glob_check gm gs2 lbl ps | Err m => Err m end.
 Proof.
   induction gs1 as [|g gs IH]; cbn; [reflexivity|].
-  destruct (find_first (gm (g_pat g)) ps); [reflexivity|]. exact IH.
+  destruct (find_first (gm (g_key g)) ps); [reflexivity|]. exact IH.
 Qed.
 
 Definition prodf (pat : str) (pc : str * claim) : bool :=
   negb (role_eqb (c_role (snd pc)) RStatic) && gm pat (fst pc).
 
 (* register_nglob when it scans the products (gr = true) *)
-Definition glob_sem (s pat : str) (ms : list str) (st : state) : res state :=
+Definition glob_sem (s pat : str) (subs : subs_t) (ms : list str) (st : state) : res state :=
   bind (require_step st (CStep s)) (fun _ =>
-  let ms' := sort_uniq (filter (gm pat) ms) in
-  match min_entry (filter (prodf pat) (claims st)) with
+  let ms' := sort_uniq (filter (gm (gkey pat subs)) ms) in
+  match min_entry (filter (prodf (gkey pat subs)) (claims st)) with
   | Some (p, cl) => Err (MGlobProduct pat s p (creator_label (c_by cl)))
   | None =>
       match find_first (is_prefix stepup_prefix) ms' with
       | Some p => Err (MStepupGlob pat p)
       | None => Ok (mkState (claims st) (loose st) (trees st) (steps st)
-                            (globs st ++ [mkGlob s pat ms']) (sinks st))
+                            (globs st ++ [mkGlob s pat subs ms']) (sinks st))
       end
   end).
 
-Lemma glob_spec ow s pat ms st : step gm ow true st (RqGlob s pat ms) = glob_sem s pat ms st.
+Lemma glob_spec ow s pat subs ms st : step gm ow true st (RqGlob s pat subs ms) = glob_sem s pat subs ms st.
 Proof. reflexivity. Qed.
 
 (* Glob pattern versus amended output / volatile output, for the variant of register_nglob that
    scans the products (the repair of D3): rejected in both orders with the same structured
    message (iff the regex matches the product), or accepted in both orders with the same state. *)
-Theorem glob_product_commute st sg pat ms s r p :
+Theorem glob_product_commute st sg pat subs ms s r p :
   Inv gm true st -> product_role r = true ->
-  accepted (step gm false true st (RqGlob sg pat ms)) = true ->
+  accepted (step gm false true st (RqGlob sg pat subs ms)) = true ->
   accepted (step gm false true st (amend1 s r p)) = true ->
-  both (run gm false true st [RqGlob sg pat ms; amend1 s r p])
-       (run gm false true st [amend1 s r p; RqGlob sg pat ms]).
+  both (run gm false true st [RqGlob sg pat subs ms; amend1 s r p])
+       (run gm false true st [amend1 s r p; RqGlob sg pat subs ms]).
 Proof.
   intros HI Hr H1 H2. rewrite !run2. rewrite (amend1_spec gm true s r p st Hr) in *.
   rewrite !glob_spec in *.
@@ -2126,13 +2128,13 @@ Proof.
   unfold glob_sem in H1 at 1.
   destruct (require_step st (CStep sg)) as [[]|] eqn:Erg; cbn [bind accepted] in H1; [|discriminate H1].
   cbv zeta in H1.
-  destruct (min_entry (filter (prodf pat) (claims st))) as [[q cq]|] eqn:Emin; [cbn in H1; discriminate H1|].
-  destruct (find_first (is_prefix stepup_prefix) (sort_uniq (filter (gm pat) ms))) eqn:Esu;
+  destruct (min_entry (filter (prodf (gkey pat subs)) (claims st))) as [[q cq]|] eqn:Emin; [cbn in H1; discriminate H1|].
+  destruct (find_first (is_prefix stepup_prefix) (sort_uniq (filter (gm (gkey pat subs)) ms))) eqn:Esu;
     [cbn in H1; discriminate H1|].
   apply min_entry_none in Emin.
-  set (g := mkGlob sg pat (sort_uniq (filter (gm pat) ms))) in *.
+  set (g := mkGlob sg pat subs (sort_uniq (filter (gm (gkey pat subs)) ms))) in *.
   set (stg := mkState (claims st) (loose st) (trees st) (steps st) (globs st ++ [g]) (sinks st)).
-  assert (Hg : glob_sem sg pat ms st = Ok stg).
+  assert (Hg : glob_sem sg pat subs ms st = Ok stg).
   { unfold glob_sem. rewrite Erg. cbn [bind]. cbv zeta. rewrite Emin. cbn [min_entry]. rewrite Esu. reflexivity. }
   rewrite Hg. cbn [bind].
   (* the amendment on st *)
@@ -2150,12 +2152,12 @@ Proof.
     destruct (declare_file false (CStep s) r st p) as [st2|] eqn:Edf; cbn [accepted] in H2; [|discriminate H2].
     destruct (declare_file_ok_inv _ _ _ _ _ (step_not_tree s) Edf) as [-> [F1 [F2 [F3 [F4 [F5 F6]]]]]].
     cbn [bind]. cbn [globs stg]. rewrite glob_check_app, Egc.
-    cbn [glob_check g_pat g_step g find_first].
+    cbn [glob_check g_pat g_step g find_first]. unfold g_key. cbn [g_pat g_subs g].
     rewrite glob_spec. unfold glob_sem.
     change (require_step (set_claim st p (mkClaim r (CStep s))) (CStep sg)) with (require_step st (CStep sg)).
     rewrite Erg. cbn [bind]. cbv zeta. cbn [claims set_claim filter]. unfold prodf at 1. cbn [fst snd c_role].
     rewrite Hnr. cbn [negb andb].
-    destruct (gm pat p) eqn:Em.
+    destruct (gm (gkey pat subs) p) eqn:Em.
     + (* the regex matches the product: rejected in both orders, same message *)
       rewrite Emin. cbn [min_entry c_by creator_label both]. reflexivity.
     + rewrite Emin. cbn [min_entry bind]. rewrite Esu.
